@@ -3,3 +3,4 @@ import USModel.Constraints
 import USModel.Scales
 import USModel.Core
 import USModel.Optim
+import USModel.ScaledParams
